@@ -1113,11 +1113,16 @@ func verifH_C06(d *verifDesc) {
 		return
 	}
 	sc := verifScanJSON(j)
+	// the reference value is what the reader decodes from the CANONICAL form j (whether that equals x is C05's subject)
+	x0 := d.newObj()
+	if verifReadJSON(x0.(verifJSON), j) != nil {
+		return
+	}
 	var want []byte
 	if d.hasTL2 {
-		want = x.(verifTL2).WriteTL2(nil, nil)
+		want = x0.(verifTL2).WriteTL2(nil, nil)
 	} else {
-		want, _ = x.(verifTL1).WriteTL1General(nil)
+		want, _ = x0.(verifTL1).WriteTL1General(nil)
 	}
 	same := func(o interface{}) bool {
 		if d.hasTL2 {
